@@ -221,27 +221,31 @@ theorem contains_lower (c : UInt8) (hc : NonLetter c) : ∀ s : Bytes, (lower s)
     congr 1
     have := lowerByte_eq_iff x c hc.1 hc.2
     by_cases h : x = c
-    · have h2 := this.mpr h
-      simp [h, h2]
+    · have h2 := this.mpr h; rw [h2, h]
     · have h2 : ¬ lowerByte x = c := fun e => h (this.mp e)
-      have h3 : ¬ c = lowerByte x := fun e => h2 e.symm
-      have h4 : ¬ c = x := fun e => h e.symm
-      simp [h3, h4]
+      rw [beq_eq_false_iff_ne.mpr (fun e => h2 e.symm), beq_eq_false_iff_ne.mpr (fun e => h e.symm)]
 
-theorem nl_star : NonLetter cStar := by decide
-theorem nl_brace : NonLetter cBrace := by decide
-theorem nl_dot : NonLetter cDot := by decide
-theorem nl_colon : NonLetter cColon := by decide
-theorem nl_lbr : NonLetter cLBr := by decide
-theorem nl_rbr : NonLetter cRBr := by decide
-theorem nl_slash : NonLetter cSlash := by decide
-theorem nl_pct : NonLetter cPct := by decide
+theorem nl_star : NonLetter cStar := by unfold NonLetter; decide
+theorem nl_brace : NonLetter cBrace := by unfold NonLetter; decide
+theorem nl_dot : NonLetter cDot := by unfold NonLetter; decide
+theorem nl_colon : NonLetter cColon := by unfold NonLetter; decide
+theorem nl_lbr : NonLetter cLBr := by unfold NonLetter; decide
+theorem nl_rbr : NonLetter cRBr := by unfold NonLetter; decide
+theorem nl_slash : NonLetter cSlash := by unfold NonLetter; decide
+theorem nl_pct : NonLetter cPct := by unfold NonLetter; decide
 
 theorem fuzzy_lower (e : Bytes) : fuzzy (lower e) = fuzzy e := by
   unfold fuzzy
   rw [contains_lower _ nl_brace, contains_lower _ nl_star]
 
 /-! ### the fast path of MatchHost -/
+
+theorem searchPred_iff (m : List Bytes) (t : Bytes) (i : Nat) :
+    searchPred m t i = true ↔ ∃ e, m[i]? = some e ∧ fuzzy e = false ∧ bytesLt e t = false := by
+  unfold searchPred
+  cases h : m[i]? with
+  | none => simp
+  | some e => simp
 
 theorem searchPred_mono (m : List Bytes) (t : Bytes) (hs : Sorted m) :
     ∀ a b, a ≤ b → b < m.length → searchPred m t a = true → searchPred m t b = true := by
@@ -250,59 +254,58 @@ theorem searchPred_mono (m : List Bytes) (t : Bytes) (hs : Sorted m) :
   · subst e; exact ha
   have hab : a < b := by omega
   have halt : a < m.length := by omega
-  unfold searchPred at *
-  rw [List.getElem?_eq_getElem halt] at ha
-  rw [List.getElem?_eq_getElem hb]
-  simp only [Bool.and_eq_true, Bool.not_eq_eq_eq_not, Bool.not_true] at ha ⊢
+  rw [searchPred_iff] at *
+  rcases ha with ⟨ea, hea, hfa, hlta⟩
+  have hea' : m[a] = ea := by
+    rcases List.getElem?_eq_some_iff.mp hea with ⟨_, hh⟩; exact hh
+  refine ⟨m[b], List.getElem?_eq_getElem hb, ?_⟩
   have hp := (List.pairwise_iff_getElem.mp hs) a b halt hb hab
+  rw [hea'] at hp
   unfold hostLess at hp
   cases hfb : fuzzy m[b] with
-  | true => simp [hfb, ha.1] at hp
+  | true => simp [hfb, hfa] at hp
   | false =>
-    simp [hfb, ha.1] at hp
-    exact ⟨rfl, bytesLt_neg_trans _ _ _ hp ha.2⟩
+    simp [hfb, hfa] at hp
+    exact ⟨rfl, bytesLt_neg_trans _ _ _ hp hlta⟩
 
 theorem fastHit_iff (m : List Bytes) (t : Bytes) (hs : Sorted m) :
     fastHit m t = true ↔ (t ∈ m ∧ fuzzy t = false) := by
   have spec := sortSearch_spec (searchPred m t) m.length (searchPred_mono m t hs)
   unfold fastHit
   simp only [beq_iff_eq]
+  generalize sortSearch m.length (searchPred m t) = pos at *
   constructor
   · intro h
-    have hlt : sortSearch m.length (searchPred m t) < m.length := by
+    have hlt : pos < m.length := by
       rcases List.getElem?_eq_some_iff.mp h with ⟨hh, _⟩; exact hh
     refine ⟨List.mem_iff_getElem?.mpr ⟨_, h⟩, ?_⟩
-    have := spec.2.1 hlt
-    unfold searchPred at this
-    rw [h] at this
-    simp only [Bool.and_eq_true, Bool.not_eq_eq_eq_not, Bool.not_true] at this
-    exact this.1
+    rcases (searchPred_iff m t pos).mp (spec.2.1 hlt) with ⟨e, he, hf, _⟩
+    rw [h] at he; cases he; exact hf
   · intro ⟨hmem, hfz⟩
     rcases List.mem_iff_getElem?.mp hmem with ⟨k, hk⟩
     have hklt : k < m.length := by
       rcases List.getElem?_eq_some_iff.mp hk with ⟨hh, _⟩; exact hh
-    have hpk : searchPred m t k = true := by
-      unfold searchPred; rw [hk]; simp [hfz, bytesLt_irrefl]
-    have hle : sortSearch m.length (searchPred m t) ≤ k := by
+    have hpk : searchPred m t k = true :=
+      (searchPred_iff m t k).mpr ⟨t, hk, hfz, bytesLt_irrefl t⟩
+    have hle : pos ≤ k := by
       apply Nat.le_of_not_lt
       intro hlt
       have := spec.1 k hlt
       rw [hpk] at this; cases this
-    have hplt : sortSearch m.length (searchPred m t) < m.length := by omega
-    have hpp := spec.2.1 hplt
-    by_cases e : sortSearch m.length (searchPred m t) = k
-    · rw [e]; exact hk
-    · have hlt : sortSearch m.length (searchPred m t) < k := by omega
+    have hplt : pos < m.length := by omega
+    rcases (searchPred_iff m t pos).mp (spec.2.1 hplt) with ⟨e, he, hfe, hge⟩
+    by_cases eq : pos = k
+    · rw [eq]; exact hk
+    · have hlt : pos < k := by omega
       have hp := (List.pairwise_iff_getElem.mp hs) _ k hplt hklt hlt
       have hk' : m[k] = t := by
         rcases List.getElem?_eq_some_iff.mp hk with ⟨_, hh⟩; exact hh
-      rw [hk'] at hp
-      unfold searchPred at hpp
-      rw [List.getElem?_eq_getElem hplt] at hpp ⊢
-      simp only [Bool.and_eq_true, Bool.not_eq_eq_eq_not, Bool.not_true] at hpp
+      have he' : m[pos] = e := by
+        rcases List.getElem?_eq_some_iff.mp he with ⟨_, hh⟩; exact hh
+      rw [hk', he'] at hp
       unfold hostLess at hp
-      simp [hfz, hpp.1] at hp
-      rw [bytesLt_antisymm _ _ hpp.2 hp]
+      simp [hfz, hfe] at hp
+      rw [he, bytesLt_antisymm _ _ hge hp]
 
 theorem hostLoop_small (h : Bytes) : ∀ m : List Bytes, hostLoop false h m = m.any (entryMatches h)
   | [] => rfl
@@ -408,14 +411,12 @@ theorem hostCase_eq (thr : Nat) (l : List Bytes) (rhost : Bytes) :
     hostCase thr l rhost =
       if hasDup (l.map lower) then .dup else .res (l.any (entryMatches (stripPort rhost))) := by
   unfold hostCase provisionHost
-  split
-  · rfl
-  · split
-    · rename_i hl
-      simp only
+  by_cases hd : hasDup (l.map lower) = true
+  · simp [hd]
+  · by_cases hl : l.length > thr
+    · simp only [hd, hl, if_true, if_false, Bool.false_eq_true]
       rw [matchHost_large thr l rhost hl]
-    · rename_i hl
-      simp only
+    · simp only [hd, hl, if_false, Bool.false_eq_true]
       rw [matchHost_small thr l rhost hl]
 
 end CaddyModel.C06
